@@ -15,8 +15,44 @@ class UserThing(object):
         return isinstance(o, UserThing) and o.x == self.x
 
 
+import enum
+
+
+class Color(str, enum.Enum):
+    RED = "red"
+    GREEN = "green"
+
+
+class TaggedStr(str):
+    def __new__(cls, s, source):
+        o = super().__new__(cls, s)
+        o.source = source
+        return o
+
+    def __reduce__(self):
+        return (TaggedStr, (str(self), self.source))
+
+    def __eq__(self, o):
+        return isinstance(o, TaggedStr) and str(o) == str(self) and o.source == self.source
+
+    def __hash__(self):
+        return hash(str(self))
+
+
+class Digest(bytes):
+    pass
+
+
 def make_value(spec):
     t = spec[0]
+    if t == "strenum":
+        return Color.GREEN
+    if t == "strsub":
+        return TaggedStr("payload", "sensor-7")
+    if t == "bytessub":
+        return Digest(b"\x01\x02")
+    if t == "boolval":
+        return True
     if t == "str":
         return spec[1]
     if t == "bytes":
@@ -44,6 +80,8 @@ def equal(a, b):
             return isinstance(a, pandas.DataFrame) and isinstance(b, pandas.DataFrame) and a.equals(b)
     except ImportError:
         pass
+    if type(a) in (Color, TaggedStr, Digest) or type(b) in (Color, TaggedStr, Digest):
+        return type(a) == type(b) and a == b
     return a == b and (type(a) == type(b) or isinstance(a, (bytes, bytearray)))
 
 
